@@ -231,6 +231,21 @@ UNITS = [
       props={'memsafe': ['C13', 'C16'], 'ub': ['C13']},
       assumes=['plain symbolic execution of the real Parameter::read; read helpers = value stubs (their proved contracts); the matrix '
                'readers c3d::readParam are recording stubs that state their precondition (non-empty dimension list)']),
+    U('B_readParam_int_1d', 'contracts/bounded_matrix_read.c', 'h_B_readParam', [], ['C02', 'C12', 'C16', 'C13'], mode='bmc',
+      stubs={'c3d__readInt': 'stubv_readInt'}, defines=['VF_ND=1'], unwind=5, timeout=900, level='B', object_bits=12,
+      bound='1 dimension of at most 3, 16-bit elements, image of at most 6 bytes',
+      props={'memsafe': ['C13', 'C16'], 'ub': ['C13']},
+      assumes=['plain symbolic execution of the real recursive c3d::readParam (int form); readInt = value stub (proved contract)']),
+    U('B_readParam_int_2d', 'contracts/bounded_matrix_read.c', 'h_B_readParam', [], ['C02', 'C12', 'C16', 'C13'], mode='bmc',
+      stubs={'c3d__readInt': 'stubv_readInt'}, defines=['VF_ND=2'], unwind=5, unwindset={'vf_vec_int_push_back.0': 11}, timeout=900, level='B', object_bits=12,
+      bound='2 dimensions of at most 3 each, 16-bit elements, image of at most 6 bytes',
+      props={'memsafe': ['C13', 'C16'], 'ub': ['C13']},
+      assumes=['plain symbolic execution of the real recursive c3d::readParam (int form); readInt = value stub (proved contract)']),
+    U('B_readParam_float_2d', 'contracts/bounded_matrix_read.c', 'h_B_readParam', [], ['C02', 'C12', 'C16', 'C13'], mode='bmc',
+      stubs={'c3d__readFloat': 'stubv_readFloat'}, defines=['VF_MATRIX_FLOAT', 'VF_IMG=12', 'VF_ND=2'], unwind=5, unwindset={'vf_vec_float_push_back.0': 11}, timeout=900, level='B', object_bits=12,
+      bound='2 dimensions of at most 3 each, float elements, image of at most 12 bytes',
+      props={'memsafe': ['C13', 'C16'], 'ub': ['C13']},
+      assumes=['plain symbolic execution of the real recursive c3d::readParam (float form); readFloat = value stub (proved contract)']),
     U('Parameters_write', WR, 'h_Parameters_write', ['Parameters__write/contract_Parameters__write'],
       ['C01', 'C03', 'C13', 'C14', 'C10'], replace=['Group__write/contract_abs_Group__write'], unwind=5, loops=True, timeout=900,
       pre_unwind={'vf_stream_write.0': 5, 'Parameters__write.0': 3},
